@@ -52,7 +52,9 @@ func shareLayouts(tier string) []nodeLayout {
 func shareScenarios(tier string) []clustermc.Scenario {
 	menu := shareMenu()
 	var out []clustermc.Scenario
-	cfgs := []schedrun.Config{{}, {Placement: "spread", ConsolidatingReclaim: true}}
+	// third configuration: what the operator deploys for the GPU placement strategy "spread" (the GPUs of
+	// a node are ordered by the gpuspread plugin instead of gpupack)
+	cfgs := []schedrun.Config{{}, {Placement: "spread", ConsolidatingReclaim: true}, {GpuSpread: true}}
 	for _, lay := range shareLayouts(tier) {
 		picks := multisetsUpTo(len(menu), 3)
 		if tier == "thorough" {
